@@ -20,6 +20,25 @@ EXTERNALS: dict = {}  # dotted name -> handler(ex, args, kwargs, lineno) -> V
 PY_TYPES = {int: Int, bool: Bool, str: Str, bytes: Bytes}
 
 
+_KNOWN_REFUTED = None
+
+
+def _refuted_known(obligation_base):
+    """True when known_findings.json lists this post-condition as an (open) refuted obligation: its callers must
+    rely on the finding-adjusted clause only -- assuming the refuted one as well would make their proofs vacuous."""
+    global _KNOWN_REFUTED
+    if _KNOWN_REFUTED is None:
+        import json
+        import os
+        path = os.path.join(os.path.dirname(os.path.dirname(os.path.abspath(__file__))), "known_findings.json")
+        try:
+            data = json.load(open(path))
+            _KNOWN_REFUTED = [e["obligation"] for e in data.get("findings", []) if e.get("status", "open") == "open"]
+        except (OSError, ValueError):
+            _KNOWN_REFUTED = []
+    return any(obligation_base == pat or obligation_base.endswith(pat) for pat in _KNOWN_REFUTED)
+
+
 def external(name):
     def deco(fn):
         EXTERNALS[name] = fn
@@ -276,6 +295,11 @@ class CallMixin:
             return VBool(truthy(args[0]) == truthy(args[1]))
         if name == "old_of":
             return args[0]
+        if name == "added":
+            v = args[0]
+            if not getattr(v, "is_set", False):
+                raise Unsupported("added(): argument is not a modelled set")
+            return VList(v.elem, seq=v.term())
         if name == "dict_put":
             return VDict(z3.Store(Dict.pack(args[0]), coerce(args[1], Str).t, to_val(args[2])))
         if name == "same_members":
@@ -654,7 +678,11 @@ class CallMixin:
             if "raises_when" in c.methods:
                 rw = truthy(self.spec_eval(c, "raises_when", vals))
                 if self.decide(rw):
-                    self.raise_by_contract(c, c.raises[0], params, old, lineno)
+                    for cls in c.raises[:-1]:  # several declared classes: any of them
+                        b = z3.Const(fresh_name(f"raises.{cls}"), z3.BoolSort())
+                        if self.decide(b):
+                            self.raise_by_contract(c, cls, params, old, lineno)
+                    self.raise_by_contract(c, c.raises[-1], params, old, lineno)
             else:
                 for cls in c.raises:
                     b = z3.Const(fresh_name(f"raises.{cls}"), z3.BoolSort())
@@ -674,6 +702,8 @@ class CallMixin:
         vals["old"] = old
         vals["result"] = result
         for name in c.ensures_names():
+            if _refuted_known(f"{c.target}/post.{name}"):
+                continue  # a clause recorded as refuted (known finding) must never be assumed at call sites
             self.assume(truthy(self.spec_eval(c, name, vals)))
         return result
 
@@ -691,6 +721,7 @@ class CallMixin:
         vals["old"] = old
         if payload is not None:
             vals["exc"] = payload
+        vals["exc_class"] = lift(cls)
         for name in sorted(n for n in c.methods if n.startswith("on_raise")):
             self.assume(truthy(self.spec_eval(c, name, vals)))
         raise RaiseSig(VExc(cls, payload))
@@ -786,19 +817,22 @@ class CallMixin:
             ty = c.types["self"].with_cls(ci.key)
         if ci.is_dataclass:
             fields = {}
-            names = [f[0] for f in ci.fields]
+            all_fields = self._dataclass_fields(ci)
+            names = [f[0] for f in all_fields]
             for n, v in zip(names, args):
                 fields[n] = v
             for n, v in kwargs.items():
                 if n not in names:
                     raise Unsupported(f"{ci.name}: unknown field {n}")
                 fields[n] = v
-            for n, ann, default in ci.fields:
+            for n, ann, default in all_fields:
                 if n not in fields:
                     if default is None:
                         raise Unsupported(f"{ci.name}: missing field {n}")
                     fields[n] = self._dataclass_default(ci, default)
-            obj = VRec(Rec(ci.name, cls=ci.key, **{k: v.ty for k, v in fields.items()}), fields)
+            rty = Rec(ci.name, cls=ci.key)
+            rty.fields = {k: v.ty for k, v in fields.items()}  # (not as keywords: a field may be called `name`)
+            obj = VRec(rty, fields)
             pi = ci.find_method("__post_init__", self.repo)
             if pi is not None:
                 self.call_vfunc(VFunc(pi, bound_self=obj), [], {}, fr, lineno)
@@ -808,6 +842,16 @@ class CallMixin:
         if init is not None:
             self.call_vfunc(VFunc(init, bound_self=obj), args, kwargs, fr, lineno)
         return obj
+
+    def _dataclass_fields(self, ci):
+        """Fields of a dataclass including those inherited from dataclass bases (base fields first, as CPython
+        orders them; a field redeclared in a subclass keeps its original position)."""
+        out = {}
+        for c in reversed(ci.mro(self.repo)):
+            if c.is_dataclass:
+                for f in c.fields:
+                    out[f[0]] = f
+        return list(out.values())
 
     def _dataclass_default(self, ci, default):
         from .ex import Frame
@@ -859,6 +903,8 @@ class CallMixin:
             v = v.val
         if isinstance(v, VStr):
             return VInt(z3.Length(v.t))
+        if getattr(v, "is_set", False):
+            raise Unsupported("len() of a set (cardinality is not modelled)")
         if isinstance(v, VList):
             return VInt(v.length())
         if isinstance(v, VTuple):
@@ -1081,6 +1127,21 @@ class CallMixin:
     def bi_enumerate(self, args, kwargs, lineno):
         items = self.concrete_items(args[0])
         if items is None:
+            lst = args[0]
+            startv = args[1] if len(args) > 1 else kwargs.get("start", lift(0))
+            if isinstance(lst, VList) and lst.seq is not None and lst.elem is not None and isinstance(startv, (VInt, VBool)):
+                # enumerate over a z3 sequence: the list of (start + j, xs[j]) as a memoised recursive function
+                oty = TupleOf(Int, lst.elem)
+                key = ("enumerate", lst.elem.name)
+                if key not in RECFUNS:
+                    isort, osort = z3.SeqSort(lst.elem.sort()), z3.SeqSort(oty.sort())
+                    f = z3.RecFunction(fresh_name("enumerate"), isort, z3.IntSort(), osort)
+                    s, k = z3.Const("en!s", isort), z3.Const("en!k", z3.IntSort())
+                    pair = oty.sort().constructor(0)(k, s[0])
+                    z3.RecAddDefinition(f, [s, k], z3.If(z3.Length(s) == 0, z3.Empty(osort), z3.Concat(
+                        z3.Unit(pair), f(z3.SubSeq(s, 1, z3.Length(s) - 1), k + 1))))
+                    RECFUNS[key] = f
+                return VList(oty, seq=RECFUNS[key](lst.seq, coerce(startv, Int).t))
             raise Unsupported("enumerate over symbolic sequence")
         start = concrete_of(args[1]) if len(args) > 1 else concrete_of(kwargs.get("start", lift(0)))
         return VList(None, items=[VTuple([lift(i + start), x]) for i, x in enumerate(items)])
@@ -1352,6 +1413,10 @@ class CallMixin:
     def list_method(self, lst: VList, name, args, kwargs, lineno):
         if getattr(lst, "assoc", False) and name == "items":
             return lst
+        if getattr(lst, "is_set", False):
+            if name != "add":
+                raise Unsupported(f"set.{name}()")
+            name = "append"
         if name == "append":
             x = args[0]
             if lst.items is not None:
@@ -1398,10 +1463,19 @@ class CallMixin:
             k = concrete_of(args[0])
             default = args[1] if len(args) > 1 else VNone()
             if k is NOCONST:
-                res = default
-                for kk, vv in d.fields.items():
-                    res = merge(eq(args[0], lift(kk)), vv, res)
-                return res
+                try:
+                    res = default
+                    for kk, vv in d.fields.items():
+                        res = merge(eq(args[0], lift(kk)), vv, res)
+                    return res
+                except Unsupported:
+                    # values without a common SMT representation (e.g. a table of functions): case split on the key
+                    if self.merge_depth > 0:
+                        raise
+                    for kk, vv in d.fields.items():
+                        if self.decide(eq(args[0], lift(kk))):
+                            return vv
+                    return default
             return d.fields.get(k, default)
         if name == "items":
             return VList(None, items=[VTuple([lift(k), v]) for k, v in d.fields.items()])
